@@ -33,6 +33,26 @@ def run(mode, hist, args):
     hist = [(int(k), v) for k, v in hist]
     try:
         p = build(hist)
+        if mode == "spellings":
+            # the same date through every accepted spelling of an instant gives the same value, on the parameter and on a group holding it
+            import datetime
+            from openfisca_core.parameters import ParameterNode
+            node = ParameterNode("g", data={"p": {"values": {kstr(k): {"value": v} for k, v in hist}}})
+            bad = []
+            for k, _ in hist + [(20150608, None), (20151231, None), (20160104, None)]:
+                d = datetime.date(k // 10000, k // 100 % 100, k % 100)
+                iso = d.isocalendar()
+                spell = [kstr(k), periods.Instant((d.year, d.month, d.day)), periods.period(kstr(k)), d, "%04d-W%02d-%d" % (iso[0], iso[1], iso[2])]
+                exp = oracle(hist, k)
+                for sp in spell:
+                    for who, reader in (("parameter", p), ("group member", node.p)):
+                        try:
+                            got = reader(sp) if who == "parameter" else node(sp).p if exp is not None else exp
+                        except Exception as ex:
+                            got = f"{type(ex).__name__}"
+                        if got != exp:
+                            bad.append({"spelling": repr(sp), "through": who, "got": got, "expected": exp})
+            return {"kind": "return", "value": {"ok": not bad, "mismatches": bad[:4]}}
         if mode == "get":
             d = int(args["d"])
             got = p._get_at_instant(kstr(d))
